@@ -14,7 +14,7 @@ import itertools
 from fractions import Fraction
 import numpy as np
 
-from .jets import J, CJ, Field, omap, Undecided, NeedResample, INF, ZERO_MI, NV
+from .jets import J, CJ, Field, omap, Undecided, NeedResample, INF, ZERO_MI, NV, multi_indices
 
 R3 = range(3)
 R4 = range(4)
@@ -185,6 +185,15 @@ class Universe:
             psi = rj()
             a, b = rj(), rj()
             l10, l20, l21 = rj(), rj(), rj()
+        pre_alpha = pre_beta = None
+        if vacuum and mode == 'onshell' and not flat:
+            # Ricci-flat data: the ten equations R_mu_nu = 0 at the generic point are affine in the
+            # second-order Taylor coefficients of the ten parameter fields; solve them for one coefficient each
+            pre_alpha, pre_beta = rj(), [rj(), rj(), rj()]
+            P = [psi, a, b, l10, l20, l21, pre_alpha] + pre_beta
+            P = self._solve_ricci_flat(P)
+            psi, a, b, l10, l20, l21, pre_alpha = P[:7]
+            pre_beta = P[7:]
         L = arr([[a, 0, 0], [l10, b, 0], [l20, l21, 1 / (a * b)]])
         gt = ein('ik,jk->ij', L, L)
         psi4 = psi ** 4
@@ -205,9 +214,9 @@ class Universe:
             F.log_reg.append((psi, phi))
         self.phi = phi
         # --- lapse, shift
-        alpha = rj() if lapse == 'full' else c(1)
+        alpha = (pre_alpha if pre_alpha is not None else rj()) if lapse == 'full' else c(1)
         if shift == 'full':
-            beta = arr([rj(), rj(), rj()])
+            beta = arr(pre_beta) if pre_beta is not None else arr([rj(), rj(), rj()])
         elif shift == 'zero':
             beta = arr([c(0), c(0), c(0)])
         else:   # e.g. 'y': only beta^y non zero
@@ -254,6 +263,93 @@ class Universe:
         # matter == 'T': Tdown4 is an input: on-shell T := (G + Lambda g)/kappa, else free symmetric
         self.inputs = {}
         self._build_inputs(input_form)
+
+    @staticmethod
+    def _metric_from_params(P):
+        psi, a, b, l10, l20, l21, alpha = P[:7]
+        beta = arr(P[7:])
+        L = arr([[a, 0, 0], [l10, b, 0], [l20, l21, 1 / (a * b)]])
+        psi4 = psi ** 4
+        gamma = omap(lambda e: e * psi4, ein('ik,jk->ij', L, L))
+        g = ozeros(4, 4)
+        bd = ein('ij,j->i', gamma, beta)
+        g[0, 0] = -alpha * alpha + ein('i,i->', beta, bd)
+        g[0, 1:] = bd
+        g[1:, 0] = bd
+        g[1:, 1:] = gamma
+        return g
+
+    def _ricci_values(self, P):
+        g = self._metric_from_params(P)
+        gi = gauss_inverse(g)
+        Gam = christoffel(g, gi, D4(g))
+        Rm = riemann_uddd(Gam, D4(Gam))
+        Ric = ein('abad->bd', Rm)
+        return [Ric[i, j].value() for i in range(4) for j in range(i, 4)]
+
+    def _solve_ricci_flat(self, P):
+        F = self.F
+        if F.kind != 'p':
+            return self._solve_ricci_flat_float(P)
+        p = F.p
+        second = [m for m in multi_indices(2) if sum(m) == 2]
+        for attempt in range(20):
+            slots = [(k, second[(k * 3 + attempt * 7 + j) % len(second)]) for j, k in enumerate(range(10))]
+            R0 = self._ricci_values(P)
+            cols = []
+            for k, m in slots:
+                Q = list(P)
+                c2 = dict(P[k].c)
+                c2[m] = (c2.get(m, 0) + 1) % p
+                Q[k] = J(F, P[k].o, c2)
+                Rk = self._ricci_values(Q)
+                cols.append([(x - y) % p for x, y in zip(Rk, R0)])
+            # solve sum_k cols[k] * d_k = -R0  (10 x 10 over F_p)
+            A = [[cols[k][i] for k in range(10)] + [(-R0[i]) % p] for i in range(10)]
+            ok = True
+            for cidx in range(10):
+                piv = next((r for r in range(cidx, 10) if A[r][cidx] % p), None)
+                if piv is None:
+                    ok = False
+                    break
+                A[cidx], A[piv] = A[piv], A[cidx]
+                inv = pow(A[cidx][cidx], p - 2, p)
+                A[cidx] = [x * inv % p for x in A[cidx]]
+                for r in range(10):
+                    if r != cidx and A[r][cidx]:
+                        f = A[r][cidx]
+                        A[r] = [(x - f * y) % p for x, y in zip(A[r], A[cidx])]
+            if not ok:
+                continue
+            Q = list(P)
+            for (k, m), row in zip(slots, A):
+                c2 = dict(Q[k].c)
+                c2[m] = (c2.get(m, 0) + row[10]) % p
+                Q[k] = J(F, Q[k].o, c2)
+            assert all(v % p == 0 for v in self._ricci_values(Q)), 'Ricci-flat solve failed'
+            return Q
+        raise Undecided('could not construct Ricci-flat data')
+
+    def _solve_ricci_flat_float(self, P):
+        import numpy as _n
+        F = self.F
+        second = [m for m in multi_indices(2) if sum(m) == 2]
+        slots = [(k, second[(k * 3 + j) % len(second)]) for j, k in enumerate(range(10))]
+        R0 = _n.array(self._ricci_values(P), dtype=float)
+        M = _n.zeros((10, 10))
+        for col, (k, m) in enumerate(slots):
+            Q = list(P)
+            c2 = dict(P[k].c)
+            c2[m] = c2.get(m, 0.0) + 1.0
+            Q[k] = J(F, P[k].o, c2)
+            M[:, col] = _n.array(self._ricci_values(Q), dtype=float) - R0
+        d = _n.linalg.solve(M, -R0)
+        Q = list(P)
+        for (k, m), dv in zip(slots, d):
+            c2 = dict(Q[k].c)
+            c2[m] = c2.get(m, 0.0) + float(dv)
+            Q[k] = J(F, Q[k].o, c2)
+        return Q
 
     def _formal_log(self, psi, phi0):
         # phi = phi0 + log(1+u), psi = psi0 (1+u)
@@ -681,7 +777,7 @@ class Universe:
 
     def k_dtconserved(self):
         # only specified for the default (vanishing) fluid: all conserved densities are 0
-        if self.fluid is not None and not self['rho0'].is_identically_zero():
+        if self.mode != 'onshell' or (self.fluid is not None and not self['rho0'].is_identically_zero()):
             raise SpecUnavailable('dtconserved needs d/dt of the fluid variables')
         z = J.const(self.F, 0)
         return (z, z, arr([z, z, z]))
